@@ -314,6 +314,14 @@ func checkC16(c *ctx) {
 		c.Violation("C16 search results must not depend on earlier searches of the same segment\n"+bad, false)
 		return
 	}
+	if bad := inPlaceBitmapHistory(c); bad != "" {
+		c.Violation("C16 "+bad, false)
+		return
+	}
+	if bad := pinnedAcrossIdlePasses(c); bad != "" {
+		c.Violation("C16 "+bad, false)
+		return
+	}
 	if bad := twoFieldsExpireTogether(c); bad != "" {
 		c.Violation("C16 index lifetime with two cached vector fields expiring in one pass\n"+bad, false)
 		return
